@@ -164,6 +164,21 @@ def run_shard(spec, acc):
                 raws[f.order] = (base[f.order] + 1) & f.mask
                 observe(decA, d, dbx.pack(d, raws), nb, tag=f"key-{f.id}-plus-one")
                 acc.count("different_key_pairs")
+            # boundary raw values in key fields: 0, 1 and the not-available pattern are all different keys, and a
+            # value moving from one key field to another is a different key too
+            for f in keys:
+                for u in (0, 1, f.na_raw(), f.mask - 1):
+                    raws = dict(base)
+                    raws[f.order] = u & f.mask
+                    observe(decA, d, dbx.pack(d, raws), nb, tag=f"key-{f.id}-raw-{u}")
+            if len(keys) >= 2:
+                a, b = keys[0], keys[1]
+                for v in (1, 2, 3):
+                    if v <= a.mask and v <= b.mask:
+                        for pair in ((0, v), (v, 0), (v, v), (0, 0)):
+                            raws = dict(base)
+                            raws[a.order], raws[b.order] = pair
+                            observe(decA, d, dbx.pack(d, raws), nb, tag=f"key-swap-{pair}")
             # mapping off: no hash
             try:
                 m = dec_off.decode_basic_string(wire.plain_line(3, d.pgn, 1, 255, p0.to_bytes(nb, "little")), already_combined=True)
